@@ -121,3 +121,101 @@ theorem cursor_mono_stepM (x : MSt) (t : MTid) (h : MInv x) : x.s.cursor ≤ (st
     split <;> exact Nat.le_refl _
 
 end RingMulti
+
+/-! ## consumers under the multi-producer sequencer
+
+The consumer-local invariants of `Lemmas/Ring.lean` mention the producer only through the cursor, and only as a lower bound
+that must not shrink. Every step of a writer or of the draining thread leaves the handler records alone and never decreases
+the cursor, so `Inv` holds along every schedule of the multi-producer pipeline as well. -/
+namespace RingMulti
+open Ring
+
+theorem stepWriter_s (x : MSt) (i : Nat) :
+    (stepWriter x i).s.cons = x.s.cons ∧ (stepWriter x i).s.K = x.s.K ∧ (stepWriter x i).s.h = x.s.h ∧
+    (stepWriter x i).s.n = x.s.n := by
+  unfold stepWriter
+  cases hpc : (x.wr i).pc <;> simp only [hpc] <;> (repeat' split) <;> simp
+
+theorem stepDrainer_s (x : MSt) :
+    (stepDrainer x).s.cons = x.s.cons ∧ (stepDrainer x).s.K = x.s.K ∧ (stepDrainer x).s.h = x.s.h ∧
+    (stepDrainer x).s.n = x.s.n ∧ x.s.cursor ≤ (stepDrainer x).s.cursor := by
+  unfold stepDrainer
+  cases hpc : x.dr.pc <;> simp only [hpc] <;> (repeat' split) <;> simp
+
+/-- the consumer invariant only needs the cursor not to shrink -/
+theorem inv_of_same_cons (s s' : St) (hI : Inv s) (hc : s'.cons = s.cons) (hK : s'.K = s.K) (hh : s'.h = s.h)
+    (hcur : s.cursor ≤ s'.cursor) : Inv s' := by
+  refine ⟨by intro k hk; rw [hh]; rw [hK] at hk; exact hI.1 k hk, ?_⟩
+  intro k j hk hj
+  rw [hK] at hk; rw [hh] at hj; rw [hc]
+  apply cinv_stable s _ k _ (hI.2 k j hk hj)
+  · simp [ndeps, hh]
+  · intro d; unfold dep; rw [hc]; split
+    · exact hcur
+    · exact Nat.le_refl _
+
+def MGood (x : MSt) : Prop := MInv x ∧ Inv x.s ∧ 0 < x.s.K
+
+theorem mgood_stepM (x : MSt) (t : MTid) (h : MGood x) : MGood (stepM x t) := by
+  obtain ⟨hM, hI, hK⟩ := h
+  refine ⟨minv_stepM x t hM, ?_, ?_⟩
+  · have hmono := cursor_mono_stepM x t hM
+    cases t with
+    | writer i =>
+      show Inv (if i < x.P then stepWriter x i else x).s
+      split
+      · rename_i hlt
+        obtain ⟨hc, hK', hh, _⟩ := stepWriter_s x i
+        have : x.s.cursor ≤ (stepWriter x i).s.cursor := by
+          have := hmono; simp only [stepM, hlt, if_true] at this; exact this
+        exact inv_of_same_cons x.s _ hI hc hK' hh this
+      · exact hI
+    | drainer =>
+      obtain ⟨hc, hK', hh, _, hcur⟩ := stepDrainer_s x
+      exact inv_of_same_cons x.s _ hI hc hK' hh hcur
+    | cons k j =>
+      show Inv (if k < x.s.K ∧ j < x.s.h k then { x with s := stepC x.s k j } else x).s
+      split
+      · rename_i hkj; exact inv_stepC x.s k j hkj.1 hkj.2 hI
+      · exact hI
+  · cases t with
+    | writer i =>
+      show 0 < (if i < x.P then stepWriter x i else x).s.K
+      split
+      · rw [(stepWriter_s x i).2.1]; exact hK
+      · exact hK
+    | drainer => show 0 < (stepDrainer x).s.K; rw [(stepDrainer_s x).2.1]; exact hK
+    | cons k j =>
+      show 0 < (if k < x.s.K ∧ j < x.s.h k then { x with s := stepC x.s k j } else x).s.K
+      split <;> exact hK
+
+theorem mgood_run (x : MSt) (sched : List MTid) (h : MGood x) : MGood (runM x sched) := by
+  unfold runM
+  induction sched generalizing x with
+  | nil => exact h
+  | cons t ts ih => exact ih _ (mgood_stepM x t h)
+
+theorem mgood_init (n K : Nat) (hh : Nat → Nat) (blocking : Bool) (batches : List (List Nat))
+    (hK : 0 < K) (hpos : ∀ k, k < K → 0 < hh k) (hb : ∀ l, l ∈ batches → ∀ b, b ∈ l → 1 ≤ b) :
+    MGood (mkM n K hh blocking batches) := by
+  refine ⟨minv_init n K hh blocking batches hb, ⟨hpos, ?_⟩, hK⟩
+  intro k j hk hj
+  constructor <;> simp [mkM, dep]
+
+end RingMulti
+
+namespace RingMulti
+open Ring
+
+/-- a state reachable in a well-formed multi-producer pipeline: any ring size, at least one stage and one handler per stage,
+either wait strategy, any number of writer threads with batches of at least one event, **any schedule** -/
+def MReachableWF (x : MSt) : Prop :=
+  ∃ (n K : Nat) (h : Nat → Nat) (blocking : Bool) (batches : List (List Nat)) (sched : List MTid),
+    0 < K ∧ (∀ k, k < K → 0 < h k) ∧ (∀ l, l ∈ batches → ∀ b, b ∈ l → 1 ≤ b) ∧
+    x = runM (mkM n K h blocking batches) sched
+
+theorem mreachableWF_good {x : MSt} (hr : MReachableWF x) : MGood x := by
+  obtain ⟨n, K, h, bl, bs, sched, hK, hh, hb, rfl⟩ := hr
+  exact mgood_run _ sched (mgood_init n K h bl bs hK hh hb)
+
+end RingMulti
